@@ -12,7 +12,8 @@ Sources (pinned tree), transcribed line by line:
   `find_basic_bin` (all: the `"Cylindrical"` branch), `find_symmetry_operation_from_basic_bin`
   — src/include/stir/recon_buildblock/DataSymmetriesForBins_PET_CartesianGrid.inl:66, :120, :223, :398, :449, :665;
 * the constructor's effective switches and `find_relation_between_coordinate_systems`
-  — src/recon_buildblock/DataSymmetriesForBins_PET_CartesianGrid.cxx:238-378, :51-117;
+  — src/recon_buildblock/DataSymmetriesForBins_PET_CartesianGrid.cxx:238-378, :51-117; its x/y voxel-size guard
+  (`fabs(dy - dx) > 2.E-3F`, :301) with `float` rounding → `squareVoxels`, `f32Round`, `Flags.effectiveVox/effectiveImg`;
 * `ProjMatrixByBin::cache_key` and the bit widths — src/recon_buildblock/ProjMatrixByBin.cxx:186,
   src/include/stir/recon_buildblock/ProjMatrixByBin.h:210-214 (12 / 28 / 20; the comment in the .cxx is stale);
 * `ProjMatrixByBin::{get_proj_matrix_elems_for_one_bin, get_cached_…, cache_…, clear_cache, enable_cache,
@@ -250,6 +251,15 @@ def squareVoxels (vy vx : Rat) : Bool := !decide (twoEm3F < qabs (f32Round (vy -
 /-- the constructor's effective switches from the voxel sizes of the image (`Flags.effective` with the guard evaluated) -/
 def Flags.effectiveVox (f : Flags) (V : Int) (vy vx : Rat) (phiOffsetZero tof originXYZero : Bool) : Flags :=
   f.effective V (squareVoxels vy vx) phiOffsetZero tof originXYZero
+
+/-- the constructor's effective switches from the image grid: voxel sizes and index ranges in y and x.
+    `xyRangeGuard`: which constructor the implementation has — `false`: the pinned tree, the index ranges are not looked
+    at; `true`: with the proposed repair C03-6 `do_symmetry_90degrees_min_phi` is also switched off unless the index
+    ranges in y and x are the same (`min_index[2] == min_index[3] && max_index[2] == max_index[3]`). -/
+def Flags.effectiveImg (f : Flags) (V : Int) (vy vx : Rat) (xyRangeGuard : Bool) (minY maxY minX maxX : Int)
+    (phiOffsetZero tof originXYZero : Bool) : Flags :=
+  f.effective V (squareVoxels vy vx && (!xyRangeGuard || (decide (minY = minX) && decide (maxY = maxX))))
+    phiOffsetZero tof originXYZero
 
 /-- axial description of the data and the image needed by `find_relation_between_coordinate_systems` -/
 structure AxGeo where
